@@ -7,7 +7,9 @@
 #include <cstdlib>
 #include <cstring>
 #include <cxxabi.h>
+#include <dlfcn.h>
 #include <exception>
+#include <link.h>
 #include <map>
 #include <sys/mman.h>
 #include <sys/time.h>
@@ -50,6 +52,8 @@ struct Task {
   bool started = false;
   int in_harness = 0;
   long wake_tick = 0;
+  char *tls = nullptr;                                   // this task's copy of the executable's static TLS block
+  std::vector<std::pair<void (*)(void *), void *>> tls_dtors;  // destructors of its thread_local objects
 };
 
 struct Proc { bool alive = true; bool ended = false; };
@@ -212,6 +216,42 @@ void note(const std::string &s) {
   W->res.trace.emplace_back("  # " + s);
 }
 
+// ---- thread_local storage of the code under test ------------------------------
+// All tasks run on one OS thread, so they would share one block of thread-local storage.  The votca objects are
+// linked statically into the harness executable, hence their thread_local variables live in the executable's static
+// TLS block: every task gets its own copy of that block (initialised from the TLS image, as for a new thread),
+// swapped in and out at every context switch.  TLS of shared libraries (libc: errno, libstdc++: exception globals)
+// is not in that block and is handled separately (saved_errno, eh).
+static char *g_tls_base = nullptr;
+static const char *g_tls_image = nullptr;
+static size_t g_tls_size = 0, g_tls_filesz = 0;
+static int tls_cb(dl_phdr_info *info, size_t, void *) {
+  for (int i = 0; i < info->dlpi_phnum; i++)
+    if (info->dlpi_phdr[i].p_type == PT_TLS) {
+      g_tls_base = (char *)info->dlpi_tls_data;
+      g_tls_size = (size_t)info->dlpi_phdr[i].p_memsz;
+      g_tls_filesz = (size_t)info->dlpi_phdr[i].p_filesz;
+      g_tls_image = (const char *)(info->dlpi_addr + info->dlpi_phdr[i].p_vaddr);
+    }
+  return 1;  // the first object is the main program; stop there
+}
+static void tls_locate() {
+  static bool done = false;
+  if (done) return;
+  done = true;
+  dl_iterate_phdr(tls_cb, nullptr);
+  if (!g_tls_base || getenv("VERIF_SHARED_TLS")) g_tls_size = 0;  // VERIF_SHARED_TLS=1: self-test of this very mechanism (tasks share one block again)
+}
+static char *tls_fresh() {
+  if (!g_tls_size) return nullptr;
+  char *b = (char *)malloc(g_tls_size);
+  if (!b) harness_error("out of memory");
+  memcpy(b, g_tls_image, g_tls_filesz);
+  memset(b + g_tls_filesz, 0, g_tls_size - g_tls_filesz);
+  return b;
+}
+size_t tls_block_size() { tls_locate(); return g_tls_size; }
+
 // ---- context switching -----------------------------------------------------
 static void switch_to(Task *next) {
   Task *prev = W->current;
@@ -221,6 +261,7 @@ static void switch_to(Task *next) {
   prev->eh = *g;
   W->current = next;
   W->res.switches++;
+  if (g_tls_size) { memcpy(prev->tls, g_tls_base, g_tls_size); memcpy(g_tls_base, next->tls, g_tls_size); }
   if (W->on_proc_switch && prev->proc != next->proc && next != &W->mainctx && prev != &W->mainctx) W->on_proc_switch(prev->proc, next->proc);
 #if defined(SIM_SAN)
   bool dying = (prev->state == T_DONE || prev->state == T_DEAD) && prev != &W->mainctx;
@@ -473,6 +514,7 @@ int spawn_task(const std::function<void()> &fn, int proc, const char *role, size
   t->stack_size = stack;
   t->stack = stack_get(stack);
   t->prio = (W->rng.next() | (1ull << 40));
+  t->tls = tls_fresh();
   getcontext(&t->ctx);
   t->ctx.uc_stack.ss_sp = t->stack;
   t->ctx.uc_stack.ss_size = t->stack_size;
@@ -525,6 +567,8 @@ void exit_task() {
   Task *t = W->current;
   t->in_harness++;
   if (t->state != T_DEAD) {
+    // a thread that ends destroys its thread_local objects
+    while (!t->tls_dtors.empty()) { auto d = t->tls_dtors.back(); t->tls_dtors.pop_back(); t->in_harness--; d.first(d.second); t->in_harness++; }
     record(K_EXIT, t->id, 0);
     finish_task(t, T_DONE);
     // the main task of a process returning = process exit
@@ -599,6 +643,22 @@ void join_task(int task) {
   record(K_JOINED, task, 0);
 }
 
+}  // namespace sim
+// thread_local objects with a destructor register it here; inside a run it belongs to the current task
+extern "C" int __cxa_thread_atexit(void (*dtor)(void *), void *obj, void *dso) {
+  using namespace sim;
+  if (W && W->current && W->current != &W->mainctx) {
+    W->current->in_harness++;
+    W->current->tls_dtors.emplace_back(dtor, obj);
+    W->current->in_harness--;
+    return 0;
+  }
+  typedef int (*impl_t)(void (*)(void *), void *, void *);
+  static impl_t impl = (impl_t)dlsym(RTLD_NEXT, "__cxa_thread_atexit_impl");
+  return impl ? impl(dtor, obj, dso) : 0;
+}
+namespace sim {
+
 // ---- run ---------------------------------------------------------------------
 Result run(const Config &cfg, const std::function<void()> &main_fn, size_t main_stack) {
   if (W) harness_error("sim::run is not re-entrant");
@@ -610,6 +670,8 @@ Result run(const Config &cfg, const std::function<void()> &main_fn, size_t main_
   w.procs.emplace_back();
   w.mainctx.id = -1;
   w.mainctx.role = "scheduler";
+  tls_locate();
+  w.mainctx.tls = tls_fresh();  // overwritten with the live content at the first switch
   w.current = &w.mainctx;
   if (cfg.strat.type == Strategy::PCT) {
     for (int i = 0; i + 1 < cfg.strat.d; i++) w.pct_points.push_back(1 + (long)w.rng.below((uint64_t)(cfg.pct_span > 1 ? cfg.pct_span : 1)));
@@ -623,8 +685,10 @@ Result run(const Config &cfg, const std::function<void()> &main_fn, size_t main_
       if (t->state == T_DONE || !t->started) stack_put(t->stack, t->stack_size);
       else munmap(t->stack - 4096, t->stack_size + 4096);  // abandoned frames: do not reuse
     }
+    free(t->tls);
     delete t;
   }
+  free(w.mainctx.tls);
   Result r = std::move(w.res);
   W = nullptr;
   return r;
